@@ -52,6 +52,8 @@ func c07FilterFamily() [][]simrt.FilterSpec {
 		{{Tags: map[string][]string{"t": {"x", "y"}, "p": {a0}}}},
 		{{Authors: []string{a0, a1}, Kinds: []int64{7}}, {Since: i64(50)}},
 		{{Until: i64(49), Limit: i64(0)}},
+		{{Until: i64(0)}},
+		{{Since: i64(0), Kinds: []int64{7}}},
 		{{EmptyKinds: true}},
 	}
 }
@@ -87,7 +89,7 @@ func (c07Engine) Gen(t *rapid.T, tier string) any {
 				ev := &simrt.EvSpec{
 					Author:    rapid.IntRange(0, 2).Draw(t, "author"),
 					Kind:      rapid.SampledFrom([]int64{1, 7}).Draw(t, "kind"),
-					CreatedAt: int64(rapid.IntRange(40, 60).Draw(t, "created_at")),
+					CreatedAt: int64(rapid.SampledFrom([]int{40, 45, 49, 50, 51, 55, 60, 0, -5}).Draw(t, "created_at")),
 					Content:   fmt.Sprintf("e%d.%d", ci, evn),
 				}
 				if tg := rapid.IntRange(0, 5).Draw(t, "ttag"); tg > 0 {
